@@ -50,7 +50,7 @@ def check_plid(rep, prog, fm):
               "0x10000000 can never equal an 8-digit query: %r" % (sts[0].data[2] if ok else None,))
     # matcher
     q = PT + "parsePelFromPLID"
-    stores = [e for e in fm.events if e.kind == "dict_store" and e.func == q]
+    stores = [e for e in fm.events if e.kind == "dict_store" and q in e.stack]
     want_in = Op("in", norm_id(fm, "plID"), None)
     okm = False
     for e in stores:
@@ -75,7 +75,7 @@ def check_plid(rep, prog, fm):
 def check_bmcid(rep, prog, fm):
     rule = "C10.R2.bmc-id"
     q = PT + "parsePelFromBmcID"
-    decs = [e for e in fm.events if e.kind == "opaquecall" and e.func == q and e.data[0] == PT + "parsePEL"]
+    decs = [e for e in fm.events if e.kind == "opaquecall" and q in e.stack and e.data[0] == PT + "parsePEL"]
     if not decs:
         rep.fail(rule, q, "parsePelFromBmcID", "--bmc-id no longer decodes the matching PEL")
         return
@@ -102,15 +102,21 @@ def check_bmcid(rep, prog, fm):
               "--bmc-id does not test equality of the decimal rendering of the 32-bit id @28 with the option value (%s)" % why, node=D.node)
     # search continues past non-matching and failing files; stops only after a match
     L = D.loops[-1] if D.loops else None
-    brks = [e for e in fm.events if e.kind == "break" and e.func == q and L is not None and e.loops and e.loops[-1] is L]
+    brks = [e for e in fm.events if e.kind == "break" and q in e.stack and L is not None and e.loops and e.loops[-1] is L]
     okb = L is not None and all(match is not None and match in conj(fm.norm(b.guard)) for b in brks)
     rep.check(okb, rule, "the file search stops only after the id matched", q, L.node if L else None,
               "the search can stop before the matching file is reached (break/handler not tied to the match)", node=L.node if L else None)
     # barrier inside the loop (a junk file earlier in the listing must not end the search)
-    tries = [e for e in fm.events if e.kind == "try_enter" and e.func == q]
-    rep.check(L is not None and any(L in t.loops for t in tries), rule, "per-file try/except lies inside the search loop", q, D.node,
+    from .c12 import tries_covering
+    try_enter = {e.data[0]: e for e in fm.events if e.kind == "try_enter"}
+    perfile = [e for e in fm.events if L is not None and L in e.loops and q in e.stack and
+               (e.kind == "open" or (e.kind == "opaquecall" and e.data[0] in (PT + "generatePH", PT + "parsePEL")))]
+
+    def barrier_in_loop(x):
+        return any(exc in try_enter and L in try_enter[exc].loops for exc in tries_covering(fm.events, x))
+    rep.check(L is not None and bool(perfile) and all(barrier_in_loop(x) for x in perfile), rule, "per-file try/except lies inside the search loop", q, D.node,
               "the try/except around the per-file work encloses the whole loop: a non-PEL file that sorts earlier ends the search", node=D.node)
-    nf = [e for e in fm.events if is_stdout_print(e) and e.func == q and e.data[0] and e.data[0][0] == Const("PEL not found")]
+    nf = [e for e in fm.events if is_stdout_print(e) and q in e.stack and e.data[0] and e.data[0][0] == Const("PEL not found")]
     rep.check(len(nf) == 1 and not nf[0].loops, rule, "'PEL not found' is reported after the search when nothing matched", q, "print('PEL not found')",
               "'PEL not found' is not reported exactly once after the search")
 
@@ -118,7 +124,7 @@ def check_bmcid(rep, prog, fm):
 def check_entryid(rep, prog, fm):
     rule = "C10.R3.entry-id"
     q = PT + "parsePelFromID"
-    calls = [e for e in fm.events if e.kind == "call" and e.func == q and e.data[0] == PT + "parseAndPrintPELFile"]
+    calls = [e for e in fm.events if e.kind == "call" and q in e.stack and e.data[0] == PT + "parseAndPrintPELFile"]
     if not calls:
         rep.fail(rule, q, "parsePelFromID", "--id no longer displays the matching file")
         return
@@ -129,16 +135,16 @@ def check_entryid(rep, prog, fm):
     rep.check(ok, rule, "--id displays a file whose name contains the normalised entry id", q, C.node,
               "--id does not select the file by 'normalised id in file name'", node=C.node)
     L = C.loops[-1] if C.loops else None
-    brks = [e for e in fm.events if e.kind == "break" and e.func == q and L is not None and e.loops and e.loops[-1] is L and e.seq > C.seq]
+    brks = [e for e in fm.events if e.kind == "break" and q in e.stack and L is not None and e.loops and e.loops[-1] is L and e.seq > C.seq]
     rep.check(bool(brks), rule, "--id stops after the first match", q, C.node, "--id keeps displaying further files after the first match", node=C.node)
-    nf = [e for e in fm.events if is_stdout_print(e) and e.func == q and e.data[0] and e.data[0][0] == Const("PEL not found")]
+    nf = [e for e in fm.events if is_stdout_print(e) and q in e.stack and e.data[0] and e.data[0][0] == Const("PEL not found")]
     rep.check(len(nf) == 1, rule, "'PEL not found' when no file name contains the id", q, "print('PEL not found')", "'PEL not found' message missing")
 
 
 def check_src(rep, prog, fm):
     rule = "C10.R4.src"
     q = PT + "parsePelFromSRCID"
-    stores = [e for e in fm.events if e.kind == "dict_store" and e.func == q]
+    stores = [e for e in fm.events if e.kind == "dict_store" and q in e.stack]
     inc = exc = None
     for e in stores:
         for c in conj(fm.norm(e.guard)):
@@ -203,7 +209,7 @@ def check_src(rep, prog, fm):
             and val.args[1] == Const(1) and key.args[0] == val.args[0]
         rep.check(okk, rule, "matches are stored as result[entry id] = summary of the same PEL", q, e.node, "match is not stored under its own entry id", node=e.node)
     # empty result still printed
-    fin = [e for e in fm.events if is_stdout_print(e) and e.func == q and not e.loops]
+    fin = [e for e in fm.events if is_stdout_print(e) and q in e.stack and not e.loops]
     rep.check(len(fin) >= 2, rule, "the (possibly empty) result object is always printed", q, "print(prettyPrint(json.dumps(final_summary)))", "result not printed")
 
 
@@ -227,7 +233,7 @@ def run(rep, prog, thorough):
     check_src(rep, prog, fm)
     # the look-up functions normalise with processId
     for fn, dest in (("parsePelFromPLID", "plID"), ("parsePelFromID", "pelID")):
-        calls = [e for e in fm.events if e.kind == "call" and e.func == PT + fn and e.data[0] == PT + "processId"]
+        calls = [e for e in fm.events if e.kind == "call" and PT + fn in e.stack and e.data[0] == PT + "processId"]
         ok = len(calls) == 1 and fm.norm(calls[0].data[1][0]) in (fm.arg(dest), fm.norm(Ite(fm.arg(dest), fm.arg(dest), NONE)))
         rep.check(ok or (len(calls) == 1 and fm.arg(dest) in list(walk(fm.norm(calls[0].data[1][0])))), "C10.R1.id-normalisation",
                   "%s normalises the option value with processId" % fn, PT + fn, "processId(...)", "%s does not normalise the given id" % fn)
